@@ -284,5 +284,9 @@ def run(tier, seed):
             for part in range(nparts):
                 shards.append(("run", name, N, G, seed, b, part, nparts, "std"))
                 shards.append(("run", name, N, G, seed, b, part, nparts, "tradeoff"))
+    for name in ("OMOPSO", "SMPSO", "PSOGA"):          # long and larger runs: default execution (cumulative effects, growing archives)
+        for (N, G) in ((4, 12), (8, 5), (3, 20)):
+            for objective in ("std", "tradeoff"):
+                shards.append(("run", name, N, G, seed, 0, 0, 1, objective))
     col = run_shards(_shard, shards)
     return col, {"exhaustive": col.counters.get("caps_hit", 0) == 0, "boxes": BOXES}
